@@ -1437,7 +1437,6 @@ Proof.
   - apply is_prefix_spec. exists (plan (bb t')). rewrite Hbeg. apply (plan_conservation _ _ _ _ Hrun).
 Qed.
 
-
 (* ---------------- probe plans: accepted traces never have too many attempts open -------------- *)
 
 Fixpoint run_open (op : list N) (evs : list event) : option (list N) :=
@@ -1720,4 +1719,213 @@ Proof.
   - rewrite baccept_guided_eq in H. apply baccept_In in H.
     destruct (bexplore_final2 c _ _ _ _ _ (btinv2_init c interval tg) H) as (t' & T & ->).
     apply (bt2_ok _ _ _ T).
+Qed.
+
+(* ---------------- probe plans: every tie resolution returns and is accepted ---------------- *)
+
+Lemma btimed_run_explore fuel oracle interval tg t o :
+  btimed_run fuel oracle interval tg t = Some o -> In o (bexplore fuel interval tg t).
+Proof.
+  revert oracle t; induction fuel as [|fuel IH]; intros oracle t H; cbn [btimed_run bexplore] in *.
+  - destruct (returned (core (bb t))); [inversion H; left; reflexivity|discriminate].
+  - destruct (returned (core (bb t))); [inversion H; left; reflexivity|].
+    destruct (list_min (bevent_times t)) as [tn|]; [|discriminate].
+    set (rd := bready t tn) in *.
+    destruct (nth_error rd _) as [l|] eqn:Hn; [|discriminate].
+    destruct (btstep interval tg t l tn) as [t1|] eqn:Hs; [|discriminate].
+    apply in_flat_map. exists l. split; [eapply nth_error_In; exact Hn|].
+    rewrite Hs. eapply IH. exact H.
+Qed.
+
+Definition bmeasure (t : btstate) : nat := measure (core (bb t)) + List.length (plan (bb t)).
+
+Record BTInv3 (c : config) (tg : list (N * N)) (t : btstate) : Prop := mkBTInv3 {
+  bt3_base : BTInv c tg t;
+  bt3_fresh : forall f, In f (running (core (bb t))) -> saw_end f (draws (bb t)) = false
+}.
+
+Lemma btinv3_init c interval tg : BTInv3 c tg (btinit c interval tg).
+Proof.
+  constructor; [apply btinv_init|]. intros f _. cbn. unfold binit. destruct (gate c); reflexivity.
+Qed.
+
+Lemma saw_end_cons g f x ds :
+  saw_end g ((f, x) :: ds) = ((f =? g) && match x with None => true | Some _ => false end) || saw_end g ds.
+Proof. reflexivity. Qed.
+Lemma drew_some_cons g f x ds :
+  drew_some g ((f, x) :: ds) = ((f =? g) && match x with Some _ => true | None => false end) || drew_some g ds.
+Proof. reflexivity. Qed.
+
+Lemma saw_end_fresh f ds : (forall d, In d ds -> fst d <> f) -> saw_end f ds = false.
+Proof.
+  intros H. unfold saw_end. destruct (existsb _ ds) eqn:He; [|reflexivity].
+  apply existsb_exists in He. destruct He as (d & Hd & Hc). apply andb_true_iff in Hc.
+  destruct Hc as [Hc _]. apply Nat.eqb_eq in Hc. exfalso. exact (H d Hd Hc).
+Qed.
+
+Definition probe_out (b : bstate) (f : nat) : fiber_out :=
+  if drew_some f (draws b) then Some (Err ConnectionPoolError) else None.
+
+Lemma btstep_fiber_empty interval tg t f tn b1 :
+  bstep (bb t) (BDraw f) = Some b1 -> plan (bb t) = [] ->
+  btstep interval tg t (TFiber f) tn =
+  match bstep b1 (BComplete f (probe_out (bb t) f)) with
+  | Some b2 => Some (mkBT b2 tn (bdeadline t) (wake t)
+                       (map (fun c => EvEnd c tn) (latest_target f (draws (bb t))) ++ btrace t)
+                       (BComplete f (probe_out (bb t) f) :: BDraw f :: bhist t))
+  | None => None
+  end.
+Proof. intros H1 H2. unfold btstep. rewrite H1, H2. reflexivity. Qed.
+
+Lemma complete_after_end b f b1 :
+  bstep b (BDraw f) = Some b1 -> plan b = [] -> returned (core b) = None -> In f (running (core b)) ->
+  exists b2, bstep b1 (BComplete f (probe_out b f)) = Some b2.
+Proof.
+  intros Hb1 Hpl Hret Hf.
+  destruct (bstep_draw_core _ _ _ Hb1) as (Hcore & Hspec & _).
+  pose proof (bstep_draw_effect _ _ _ Hb1) as He. rewrite Hpl in He. destruct He as [Hdr _].
+  assert (Hmem : mem f (running (core b)) = true) by (apply mem_In; exact Hf).
+  unfold probe_out. cbn [bstep]. rewrite Hdr, saw_end_cons, drew_some_cons, Nat.eqb_refl, Hspec, Hcore.
+  cbn [andb orb].
+  destruct (drew_some f (draws b)) eqn:Hds; cbn [negb]; destruct (speculative b).
+  - unfold step, on_complete. rewrite Hret, Hmem. cbn. eauto.
+  - unfold single_complete. rewrite Hret, Hmem. cbn. eauto.
+  - unfold step, on_complete. rewrite Hret, Hmem. cbn. eauto.
+  - unfold single_complete. rewrite Hret, Hmem. cbn. eauto.
+Qed.
+
+(* a ready label can always be taken; it preserves the invariant and decreases the measure *)
+Lemma btstep_progress c interval tg t tn l :
+  BTInv3 c tg t -> returned (core (bb t)) = None -> In l (bready t tn) ->
+  exists t', btstep interval tg t l tn = Some t' /\ BTInv3 c tg t' /\ bmeasure t' < bmeasure t.
+Proof.
+  intros [Base Hfresh] Hret Hl.
+  pose proof (bt_run _ _ _ Base) as Hrun. pose proof (binv_reachable _ _ _ _ Hrun) as B.
+  unfold bready in Hl. apply in_app_or in Hl. destruct Hl as [Hl|Hl].
+  - (* the timer *)
+    destruct (speculative (bb t)) eqn:Hsp; [|destruct Hl].
+    destruct (sleep (core (bb t))) eqn:Hsl; [|destruct Hl].
+    destruct (N.eqb_spec (bdeadline t) tn); [|destruct Hl]. destruct Hl as [<-|[]].
+    assert (Hst : exists s', step (core (bb t)) Timer = Some s').
+    { unfold step, on_timer. rewrite Hret, Hsl. destruct (retries (core (bb t))); eauto. }
+    destruct Hst as [s' Hs'].
+    assert (Hb : bstep (bb t) BTimer = Some (mkB true s' (plan (bb t)) (draws (bb t)))).
+    { cbn [bstep]. rewrite Hsp, Hs'. reflexivity. }
+    unfold btstep. rewrite Hb. eexists. split; [reflexivity|].
+    assert (Hstep : btstep interval tg t TTimer tn = Some
+              (mkBT (mkB true s' (plan (bb t)) (draws (bb t))) tn (tn + interval)%N
+                 (if started s' =? started (core (bb t)) then wake t else (started (core (bb t)), tn) :: wake t)
+                 (btrace t) (BTimer :: bhist t))).
+    { unfold btstep. rewrite Hb. reflexivity. }
+    split; [constructor|].
+    + eapply btinv_step; [exact Base|exact Hstep].
+    + cbn [bb core draws]. intros f Hf.
+      destruct (bstep_timer_running _ _ Hb) as [Hr|Hr]; cbn [core] in Hr; rewrite Hr in Hf.
+      * apply Hfresh. exact Hf.
+      * apply in_app_or in Hf. destruct Hf as [Hf|[<-|[]]]; [apply Hfresh; exact Hf|].
+        apply saw_end_fresh. intros d Hd. pose proof (b_ids _ _ _ _ B d Hd). lia.
+    + unfold bmeasure. cbn [bb core plan]. apply step_measure in Hs'. lia.
+  - (* a fiber is polled *)
+    apply in_map_iff in Hl. destruct Hl as (f & <- & Hf). apply filter_In in Hf. destruct Hf as [Hf _].
+    assert (Hmem : mem f (running (core (bb t))) = true) by (apply mem_In; exact Hf).
+    assert (Hd : exists b1, bstep (bb t) (BDraw f) = Some b1).
+    { cbn [bstep]. rewrite Hret, Hmem, (Hfresh f Hf). cbn [negb andb]. destruct (plan (bb t)); eauto. }
+    destruct Hd as [b1 Hb1].
+    destruct (bstep_draw_core _ _ _ Hb1) as (Hcore & Hspec & _).
+    pose proof (bstep_draw_effect _ _ _ Hb1) as He.
+    destruct (plan (bb t)) as [|x rest] eqn:Hpl.
+    + destruct He as [Hdr Hpl1].
+      destruct (complete_after_end _ _ _ Hb1 Hpl Hret Hf) as [b2 Hb2].
+      set (o := probe_out (bb t) f) in *.
+      assert (Hstep : btstep interval tg t (TFiber f) tn = Some
+                (mkBT b2 tn (bdeadline t) (wake t)
+                   (map (fun c => EvEnd c tn) (latest_target f (draws (bb t))) ++ btrace t)
+                   (BComplete f o :: BDraw f :: bhist t))).
+      { rewrite (btstep_fiber_empty _ _ _ _ _ _ Hb1 Hpl). fold o. rewrite Hb2. reflexivity. }
+      eexists. split; [exact Hstep|]. split; [constructor|].
+      * eapply btinv_step; [exact Base|exact Hstep].
+      * cbn [bb]. intros g Hg. rewrite (bstep_complete_running _ _ _ _ Hb2), Hcore in Hg.
+        apply remove_In in Hg. destruct Hg as [Hg Hne].
+        rewrite (bstep_complete_draws _ _ _ _ Hb2), Hdr, saw_end_cons.
+        replace (f =? g) with false by (symmetry; apply Nat.eqb_neq; congruence).
+        cbn [andb orb]. apply Hfresh. exact Hg.
+      * unfold bmeasure. cbn [bb].
+        assert (Hplan2 : plan b2 = plan b1).
+        { cbn [bstep] in Hb2. match type of Hb2 with (if ?c then _ else _) = _ => destruct c; [|discriminate] end.
+          destruct (if speculative b1 then _ else _); inversion Hb2; subst; reflexivity. }
+        rewrite Hplan2, Hpl1. cbn [List.length].
+        assert (Hm : measure (core b2) < measure (core (bb t))).
+        { cbn [bstep] in Hb2. match type of Hb2 with (if ?c then _ else _) = _ => destruct c; [|discriminate] end.
+          rewrite Hspec, Hcore in Hb2. destruct (speculative (bb t)).
+          - destruct (step (core (bb t)) (Complete f o)) as [s'|] eqn:Hs'; [|discriminate].
+            inversion Hb2; subst. cbn [core]. eapply step_measure. exact Hs'.
+          - unfold single_complete in Hb2. rewrite Hret, Hmem in Hb2. inversion Hb2; subst. cbn [core].
+            unfold measure. cbn [retries running sleep]. pose proof (remove_length_lt _ _ Hf). lia. }
+        lia.
+    + destruct He as [Hdr Hpl1].
+      assert (Hstep : btstep interval tg t (TFiber f) tn = Some
+                (mkBT b1 tn (bdeadline t) ((f, (tn + lookupN 0%N x tg)%N) :: wake t)
+                   (EvBegin x tn :: map (fun c => EvEnd c tn) (latest_target f (draws (bb t))) ++ btrace t)
+                   (BDraw f :: bhist t))).
+      { unfold btstep. rewrite Hb1, Hpl. reflexivity. }
+      eexists. split; [exact Hstep|]. split; [constructor|].
+      * eapply btinv_step; [exact Base|exact Hstep].
+      * cbn [bb]. intros g Hg. rewrite Hcore in Hg. rewrite Hdr, saw_end_cons, andb_false_r. cbn [orb].
+        apply Hfresh. exact Hg.
+      * unfold bmeasure. cbn [bb]. rewrite Hcore, Hpl1, Hpl. cbn [List.length]. lia.
+Qed.
+
+Lemma bready_nonempty c tg t :
+  BTInv3 c tg t -> returned (core (bb t)) = None ->
+  exists tn, list_min (bevent_times t) = Some tn /\ bready t tn <> [].
+Proof.
+  intros [Base Hfresh] Hret.
+  pose proof (bt_run _ _ _ Base) as Hrun. pose proof (binv_reachable _ _ _ _ Hrun) as B.
+  assert (Hne : bevent_times t <> []).
+  { unfold bevent_times. intros Hnil. apply app_eq_nil in Hnil. destruct Hnil as [H1 H2].
+    apply map_eq_nil in H2.
+    destruct (gate c) as [max|] eqn:Hg.
+    - pose proof (b_mode _ _ _ _ B) as Hm. rewrite Hg in Hm. rewrite Hm in H1.
+      destruct (execute_no_deadlock _ _ _ (b_spec _ _ _ _ B _ Hg) Hret) as [Hnd _].
+      destruct (Hnd H2) as [Hs _]. rewrite Hs in H1. discriminate.
+    - destruct (b_single _ _ _ _ B Hg) as [[Hc _]|(o & _ & Hc)]; rewrite Hc in *; cbn in *; discriminate. }
+  destruct (list_min (bevent_times t)) as [tn|] eqn:Hmin; [|apply list_min_none in Hmin; congruence].
+  exists tn. split; [reflexivity|].
+  destruct (list_min_spec _ _ Hmin) as [Hin _]. unfold bevent_times in Hin. unfold bready.
+  apply in_app_or in Hin. destruct Hin as [Hin|Hin]; intros Hnil; apply app_eq_nil in Hnil; destruct Hnil as [H1 H2].
+  - destruct (speculative (bb t)); [|destruct Hin]. destruct (sleep (core (bb t))); [|destruct Hin].
+    destruct Hin as [<-|[]]. rewrite N.eqb_refl in H1. discriminate.
+  - apply in_map_iff in Hin. destruct Hin as (f & Hw & Hf). apply map_eq_nil in H2.
+    assert (Hx : In f (filter (fun f => (lookup_nat 0%N f (wake t) =? tn)%N) (running (core (bb t))))).
+    { apply filter_In. split; [exact Hf|apply N.eqb_eq; exact Hw]. }
+    rewrite H2 in Hx. destruct Hx.
+Qed.
+
+Lemma btimed_run_total c interval tg fuel oracle t :
+  BTInv3 c tg t -> bmeasure t < fuel -> exists o, btimed_run fuel oracle interval tg t = Some o.
+Proof.
+  revert oracle t; induction fuel as [|fuel IH]; intros oracle t T Hm; [lia|].
+  cbn [btimed_run]. destruct (returned (core (bb t))) as [r|] eqn:Hret; [eauto|].
+  destruct (bready_nonempty _ _ _ T Hret) as (tn & Hmin & Hne). rewrite Hmin.
+  set (rd := bready t tn) in *.
+  set (i := match oracle with [] => 0 | c0 :: _ => c0 mod List.length rd end).
+  assert (Hi : i < List.length rd).
+  { destruct rd as [|x rd']; [congruence|]. subst i. destruct oracle; [cbn; lia|].
+    apply Nat.mod_upper_bound. discriminate. }
+  destruct (nth_error rd i) as [l|] eqn:Hn; [|apply nth_error_None in Hn; lia].
+  assert (Hl : In l (bready t tn)) by (eapply nth_error_In; exact Hn).
+  destruct (btstep_progress c interval tg t tn l T Hret Hl) as (t' & Hs & T' & Hlt).
+  rewrite Hs. apply IH; [exact T'|lia].
+Qed.
+
+Lemma probe_accept_complete c interval tg oracle :
+  exists o, btimed_run (bfuel c tg) oracle interval tg (btinit c interval tg) = Some o /\
+            baccept_guided c interval tg o = true.
+Proof.
+  destruct (btimed_run_total c interval tg (bfuel c tg) oracle (btinit c interval tg)
+              (btinv3_init c interval tg)) as [o Ho].
+  { unfold bmeasure, bfuel, btinit, binit. cbn [bb]. destruct (gate c) as [max|]; cbn [core plan];
+      rewrite map_length; unfold measure, init, single_init; cbn; lia. }
+  exists o. split; [exact Ho|]. rewrite baccept_guided_eq. apply baccept_In. unfold btimed_runs.
+  eapply btimed_run_explore. exact Ho.
 Qed.
